@@ -12,6 +12,7 @@ from specs import c08, c10, inotify_emitter
 
 PROP = "C07"
 GROUNDABLE = True
+GROUND_SCOPES = (4,)   # the emitter's path world needs a path, its parent and their two byte encodings
 BATTERY = "c07_battery.py"
 
 
@@ -28,6 +29,15 @@ def make_specs():
     for sp in (Close(IRWorld(), PROP), c12.EmitterStop(), c12.BufSpec("on_thread_stop"), c12.BufSpec("close")):
         sp.prop = PROP
         out.append(sp)
+    # "no sequence of API calls makes a thread terminate with an unhandled error": the observer thread's loop body
+    from specs import c04
+    DW = c04.DispatchWorld()
+    for sp in (c04.Dispatch(DW, False, PROP), c04.Dispatch(DW, True, PROP)):
+        out.append(sp)
+    from specs import c13
+    oi = c13.ObserverInit(c13.ObsWorld() if hasattr(c13, "ObsWorld") else DW)
+    oi.prop = PROP
+    out.append(oi)
     P, S = c10.PWorld(), c10.WalkWorld()
     for sp in (c10.PollQueueEvents(P), c10.Walk(S, PROP), c10.SnapInit(S)):
         sp.prop = PROP
